@@ -15,7 +15,7 @@
 #include <cstdio>
 #include <type_traits>
 using namespace IMATH_NAMESPACE;
-static int count = 0, interop = 0;
+static int count = 0, yes = 0, no = 0; // incremented by the assertion macros themselves: one per static_assert that was compiled
 template <class T> struct FXY { T x, y; };
 template <class T> struct FXYZ { T x, y, z; };
 template <class T> struct FXYZW { T x, y, z, w; };
@@ -24,24 +24,25 @@ template <class T, int N, int M> struct FSub2 { T d[N][M]; const T* operator[] (
 template <class T> struct Wider { typedef double type; };
 template <> struct Wider<double> { typedef float type; };
 template <> struct Wider<int64_t> { typedef int type; };
-#define YES(To, From) static_assert (std::is_constructible<To, From>::value && std::is_assignable<To&, From>::value, #To " must be constructible / assignable from " #From)
-#define NO(To, From) static_assert (!std::is_constructible<To, From>::value && !std::is_assignable<To&, From>::value, #To " must NOT be constructible / assignable from " #From)
+#define YES(To, From) ++yes; static_assert (std::is_constructible<To, From>::value && std::is_assignable<To&, From>::value, #To " must be constructible / assignable from " #From)
+#define NO(To, From) ++no; static_assert (!std::is_constructible<To, From>::value && !std::is_assignable<To&, From>::value, #To " must NOT be constructible / assignable from " #From)
 #define COMMA ,
-#define OFF(Ty, m, k) static_assert (offsetof (Ty, m) == (k) * sizeof (T), #Ty "::" #m " is not element " #k)
+#define LAY(cond, msg) ++count; static_assert (cond, msg)
+#define OFF(Ty, m, k) ++count; static_assert (offsetof (Ty, m) == (k) * sizeof (T), #Ty "::" #m " is not element " #k)
 template <class T> struct Check
 {
     static void run ()
     {
-        static_assert (sizeof (Vec2<T>) == 2 * sizeof (T) && std::is_standard_layout<Vec2<T>>::value, "Vec2 layout");
-        static_assert (sizeof (Vec3<T>) == 3 * sizeof (T) && std::is_standard_layout<Vec3<T>>::value, "Vec3 layout");
-        static_assert (sizeof (Vec4<T>) == 4 * sizeof (T) && std::is_standard_layout<Vec4<T>>::value, "Vec4 layout");
-        static_assert (sizeof (Color3<T>) == 3 * sizeof (T), "Color3 layout");
-        static_assert (sizeof (Color4<T>) == 4 * sizeof (T) && std::is_standard_layout<Color4<T>>::value, "Color4 layout");
-        static_assert (sizeof (Shear6<T>) == 6 * sizeof (T) && std::is_standard_layout<Shear6<T>>::value, "Shear6 layout");
-        static_assert (sizeof (Quat<T>) == 4 * sizeof (T) && std::is_standard_layout<Quat<T>>::value, "Quat layout");
-        static_assert (sizeof (Matrix22<T>) == 4 * sizeof (T) && std::is_standard_layout<Matrix22<T>>::value, "Matrix22 layout");
-        static_assert (sizeof (Matrix33<T>) == 9 * sizeof (T) && std::is_standard_layout<Matrix33<T>>::value, "Matrix33 layout");
-        static_assert (sizeof (Matrix44<T>) == 16 * sizeof (T) && std::is_standard_layout<Matrix44<T>>::value, "Matrix44 layout");
+        LAY (sizeof (Vec2<T>) == 2 * sizeof (T) && std::is_standard_layout<Vec2<T>>::value, "Vec2 layout");
+        LAY (sizeof (Vec3<T>) == 3 * sizeof (T) && std::is_standard_layout<Vec3<T>>::value, "Vec3 layout");
+        LAY (sizeof (Vec4<T>) == 4 * sizeof (T) && std::is_standard_layout<Vec4<T>>::value, "Vec4 layout");
+        LAY (sizeof (Color3<T>) == 3 * sizeof (T), "Color3 layout");
+        LAY (sizeof (Color4<T>) == 4 * sizeof (T) && std::is_standard_layout<Color4<T>>::value, "Color4 layout");
+        LAY (sizeof (Shear6<T>) == 6 * sizeof (T) && std::is_standard_layout<Shear6<T>>::value, "Shear6 layout");
+        LAY (sizeof (Quat<T>) == 4 * sizeof (T) && std::is_standard_layout<Quat<T>>::value, "Quat layout");
+        LAY (sizeof (Matrix22<T>) == 4 * sizeof (T) && std::is_standard_layout<Matrix22<T>>::value, "Matrix22 layout");
+        LAY (sizeof (Matrix33<T>) == 9 * sizeof (T) && std::is_standard_layout<Matrix33<T>>::value, "Matrix33 layout");
+        LAY (sizeof (Matrix44<T>) == 16 * sizeof (T) && std::is_standard_layout<Matrix44<T>>::value, "Matrix44 layout");
         OFF (Vec2<T>, x, 0); OFF (Vec2<T>, y, 1);
         OFF (Vec3<T>, x, 0); OFF (Vec3<T>, y, 1); OFF (Vec3<T>, z, 2);
         OFF (Vec4<T>, x, 0); OFF (Vec4<T>, y, 1); OFF (Vec4<T>, z, 2); OFF (Vec4<T>, w, 3);
@@ -49,12 +50,11 @@ template <class T> struct Check
         OFF (Shear6<T>, xy, 0); OFF (Shear6<T>, xz, 1); OFF (Shear6<T>, yz, 2); OFF (Shear6<T>, yx, 3); OFF (Shear6<T>, zx, 4); OFF (Shear6<T>, zy, 5);
         OFF (Quat<T>, r, 0); OFF (Quat<T>, v, 1);
         OFF (Matrix22<T>, x, 0); OFF (Matrix33<T>, x, 0); OFF (Matrix44<T>, x, 0);
-        static_assert (sizeof (((Matrix44<T>*) 0)->x[0]) == 4 * sizeof (T), "Matrix44 rows are contiguous (row-major)");
-        static_assert (sizeof (((Matrix33<T>*) 0)->x[0]) == 3 * sizeof (T), "Matrix33 rows are contiguous (row-major)");
-        static_assert (sizeof (((Matrix22<T>*) 0)->x[0]) == 2 * sizeof (T), "Matrix22 rows are contiguous (row-major)");
-        static_assert (std::is_standard_layout<Color3<T>>::value, "Color3 layout");
-        static_assert (offsetof (Color3<T>, x) == 0 && offsetof (Color3<T>, y) == sizeof (T) && offsetof (Color3<T>, z) == 2 * sizeof (T), "Color3 members are elements 0,1,2");
-        count += 40;
+        LAY (sizeof (((Matrix44<T>*) 0)->x[0]) == 4 * sizeof (T), "Matrix44 rows are contiguous (row-major)");
+        LAY (sizeof (((Matrix33<T>*) 0)->x[0]) == 3 * sizeof (T), "Matrix33 rows are contiguous (row-major)");
+        LAY (sizeof (((Matrix22<T>*) 0)->x[0]) == 2 * sizeof (T), "Matrix22 rows are contiguous (row-major)");
+        LAY (std::is_standard_layout<Color3<T>>::value, "Color3 layout");
+        LAY (offsetof (Color3<T>, x) == 0 && offsetof (Color3<T>, y) == sizeof (T) && offsetof (Color3<T>, z) == 2 * sizeof (T), "Color3 members are elements 0,1,2");
         typedef typename Wider<T>::type U; // another element type of a different size
         // positive selection (struct with named members, subscriptable struct, raw C array of the right length)
         YES (Vec2<T>, FXY<T>); YES (Vec3<T>, FXYZ<T>); YES (Vec4<T>, FXYZW<T>);
@@ -68,17 +68,18 @@ template <class T> struct Check
         NO (Vec2<T>, T (&)[3]); NO (Vec3<T>, T (&)[2]); NO (Vec3<T>, T (&)[4]); NO (Vec4<T>, T (&)[3]);
         NO (Matrix22<T>, FSub2<T COMMA 3 COMMA 3>); NO (Matrix33<T>, FSub2<T COMMA 2 COMMA 2>); NO (Matrix33<T>, FSub2<T COMMA 4 COMMA 4>); NO (Matrix44<T>, FSub2<T COMMA 3 COMMA 3>);
         NO (Matrix33<T>, T (&)[4][4]); NO (Matrix44<T>, T (&)[3][3]); NO (Matrix22<T>, T (&)[3][3]);
+        // non-square shapes with a matching row or column count (a has_double_subscript that checks one dimension only)
+        NO (Matrix22<T>, FSub2<T COMMA 2 COMMA 3>); NO (Matrix33<T>, FSub2<T COMMA 3 COMMA 4>); NO (Matrix33<T>, T (&)[3][4]); NO (Matrix44<T>, T (&)[4][3]);
         // wrong element type (of a different size, and with the same total size)
         NO (Vec2<T>, FXY<U>); NO (Vec3<T>, FXYZ<U>); NO (Vec4<T>, FXYZW<U>); NO (Vec3<T>, FSub<U COMMA 3>); NO (Vec3<T>, U (&)[3]);
-        NO (Matrix33<T>, FSub2<U COMMA 3 COMMA 3>); NO (Matrix44<T>, FSub2<U COMMA 4 COMMA 4>);
+        NO (Matrix22<T>, FSub2<U COMMA 2 COMMA 2>); NO (Matrix33<T>, FSub2<U COMMA 3 COMMA 3>); NO (Matrix44<T>, FSub2<U COMMA 4 COMMA 4>);
         NO (Vec2<T>, FSub<signed char COMMA 2 * sizeof (T)>); NO (Vec4<T>, FSub<signed char COMMA 4 * sizeof (T)>);
-        interop += 15 + 21 + 9;
     }
 };
 int main ()
 {
     Check<short>::run (); Check<int>::run (); Check<int64_t>::run (); Check<half>::run ();
     Check<float>::run (); Check<double>::run (); Check<unsigned char>::run ();
-    printf ("%d layout assertions and %d interop-selection assertions (positive and negative) hold for 7 element types\n", count, interop);
+    printf ("%d layout assertions, %d positive and %d negative interop-selection assertions hold for 7 element types\n", count, yes, no);
     return 0;
 }
